@@ -40,6 +40,16 @@ class Lock:
         self.f.close()
 
 
+def _raise_stack():
+    """the extracted model recurses once per input byte in places: give children the hard stack limit"""
+    try:
+        import resource
+        soft, hard = resource.getrlimit(resource.RLIMIT_STACK)
+        resource.setrlimit(resource.RLIMIT_STACK, (hard, hard))
+    except Exception:
+        pass
+
+
 def sh(cmd, cwd=None, timeout=1800, env=None):
     e = dict(os.environ)
     scratch = os.path.join(CACHE, "scratch")
@@ -49,7 +59,7 @@ def sh(cmd, cwd=None, timeout=1800, env=None):
         e.update(env)
     try:
         p = subprocess.run(cmd, cwd=cwd, env=e, stdout=subprocess.PIPE, stderr=subprocess.STDOUT, timeout=timeout,
-                           shell=isinstance(cmd, str))
+                           shell=isinstance(cmd, str), preexec_fn=_raise_stack)
         return p.returncode, p.stdout.decode("utf-8", "replace")
     except subprocess.TimeoutExpired as ex:
         return 124, (ex.stdout or b"").decode("utf-8", "replace") + "\nTIMEOUT"
